@@ -545,6 +545,9 @@ class DestHandler:
                 self._handle_fd_pdu(pdu_holder.to_file_data_pdu())
                 if self._params.acked_params.deferred_lost_segment_detection_active:
                     self._reset_nak_activity_parameters()
+            elif packet is not None and pdu_holder.pdu_directive_type == DirectiveType.EOF_PDU:
+                # The sender did not receive the ACK of its EOF PDU: acknowledge again.
+                self._prepare_eof_ack_packet()
             self._deferred_lost_segment_handling()
         if self.states.step == TransactionStep.TRANSFER_COMPLETION:
             self._handle_transfer_completion()
@@ -792,6 +795,14 @@ class DestHandler:
 
     def _handle_waiting_for_finished_ack(self, packet_holder: PduHolder) -> None:
         """Returns False if the FSM should be called again."""
+        if (
+            packet_holder.pdu is not None
+            and packet_holder.pdu_type == PduType.FILE_DIRECTIVE
+            and packet_holder.pdu_directive_type == DirectiveType.EOF_PDU
+        ):
+            # The sender did not receive the ACK of its EOF PDU: acknowledge again.
+            self._prepare_eof_ack_packet()
+            return
         if (
             packet_holder.pdu is None
             or packet_holder.pdu_type == PduType.FILE_DATA
